@@ -299,7 +299,8 @@ func c03Scalar(t *rapid.T, ev *evProp, gi *GroupInfo) {
 const c03Rule = "three generated families per group: (points) a point from {O,B,-B,k*B,a*B,Pick,Embed,Hash,decoded,sums/differences/doubles/multiples with non-normalised internals,pairing outputs} is checked for " +
 	"fixed length, round trip, byte-identical re-encoding, MarshalTo/UnmarshalFrom with a random trailer, the four hex helpers, and value preservation against a twin created through bytes beforehand (incl. continued arithmetic); " +
 	"(pairs) two points equal by construction along different API paths, or different by construction, must satisfy Equal <=> identical encodings; (scalars) reduced scalars from edge classes: canonical fixed-length encoding equal to the math/big rendering, round trip, stream and hex helpers, Equal <=> bytes. " +
-	"non-trivial = identity/edge operand, non-normalised internals, an encoding with a leading zero byte, or any pair case; distinct = distinct rendered case"
+	"non-trivial = identity/edge operand, non-normalised internals, an encoding with a leading zero byte, or any pair case; distinct = distinct rendered case" +
+	" Added after the sensitivity rounds: decoding into fresh / used / arithmetic-result receivers; the caller overwrites returned encodings and decoded input buffers and updates values in place (an encoding is a snapshot)."
 
 func TestC03_Encodings(t *testing.T) {
 	ev := evFor("C03")
